@@ -12,5 +12,6 @@ mkdir -p $dst; cp -r $src/* $dst/
 case $mode in
  copy) echo "cp seeded/$N/demo_test.go $dir/zz_seeded_demo_test.go; $envs go test -vet=off -count=1 $flags -run '$pat' ./$dir/; rc=\$?; rm -f $dir/zz_seeded_demo_test.go; exit \$rc";;
  inplace) echo "go test -vet=off -count=1 ./seeded/$N/";;
+ inplacedemo) echo "go test -vet=off -count=1 ./seeded/$N/demo/";;
  gorun) echo "go run ./seeded/$N/demo";;
 esac; } > $dst/demo-run.sh; chmod +x $dst/demo-run.sh
